@@ -70,6 +70,73 @@ def oracle_c03_actions(ent, d):
     return None
 
 
+def oracle_c03_retain(ent):
+    """--action=retain, one round, nothing else cutting the read: what is written is the read from the beginning of the first adapter
+    occurrence to the end of the last one (5' adapter: occurrence and everything behind it; 3' adapter: everything up to the end of
+    the occurrence; linked: from the 5' occurrence to the end of the 3' occurrence) -- read off the info file of the same run"""
+    cfg, reads, res = ent["cfg"], ent["reads"], ent["impl"]
+    if cfg.action != "retain" or cfg.times != 1 or not cfg.info_file or res.get("info") is None or cfg.revcomp:
+        return None
+    if cfg.cuts or cfg.qcut not in (None, "0") or cfg.nextseq is not None or cfg.poly_a or cfg.length is not None or cfg.trim_n:
+        return None
+    objs = {a.name: a for a in ent["objs"]}
+    rows = {}
+    for row in res["info"]:
+        rows.setdefault(read_index(row[0]), []).append(row)
+    out = {}
+    for key, recs in res["files"].items():
+        for name, seq, qual in recs:
+            out[read_index(name)] = seq
+    for idx, (name, seq, qual) in enumerate(reads):
+        rs = rows.get(idx)
+        if idx not in out or not rs or rs[0][1] == "-1":
+            continue
+        lo, hi = None, None
+        off = 0
+        for row in rs:
+            start, end = int(row[2]), int(row[3])
+            part = row[7].split(";")[1] if ";" in row[7] else None
+            ad = objs.get(row[7].split(";")[0])
+            if ad is None:
+                return None
+            front = part == "1" or (part is None and removes_prefix(ad, start))
+            if front:
+                lo = off + start if lo is None else lo
+                hi = len(seq) if hi is None else hi
+                off += end
+            else:
+                hi = off + end
+                lo = 0 if lo is None else lo
+        want = seq[lo:hi]
+        if out[idx] != want:
+            return "read %r: retain wrote %r, the adapter occurrences span [%d,%d) = %r" % (seq, out[idx], lo, hi, want)
+    return None
+
+
+def linked_retain_case(rng):
+    """--action=retain with linked adapters whose occurrences differ in length from the adapters: a 5' part cut off by the beginning
+    of the read, a 3' part with an insertion or deletion, and sequence behind it"""
+    fr = U.rand_seq(rng, 8, "ACGT")
+    bk = U.rand_seq(rng, rng.choice([8, 10]), "ACGT")
+    flag = rng.choice(["-g", "-a"])
+    cfg = S.Cfg(adapters=((flag, "lk=%s...%s" % (fr, bk)),), error_rate=rng.choice([0.15, 0.2]), action="retain", info_file=True,
+                fasta=rng.random() < 0.3, overlap=3)
+    reads = []
+    for i in range(rng.choice([5, 8])):
+        f2 = fr[rng.choice([0, 0, 2, 3, 4]):]
+        b2 = bk
+        r = rng.random()
+        if r < 0.35:
+            p_ = rng.randrange(1, len(bk) - 1)
+            b2 = bk[:p_] + bk[p_ + 1:]
+        elif r < 0.7:
+            p_ = rng.randrange(1, len(bk) - 1)
+            b2 = bk[:p_] + rng.choice("ACGT") + bk[p_:]
+        seq = f2 + U.rand_seq(rng, rng.choice([6, 10, 15]), "ACGT") + b2 + U.rand_seq(rng, rng.choice([0, 4, 9]), "ACGT")
+        reads.append(("r%d" % i, seq, None if cfg.fasta else "".join(chr(33 + rng.randint(2, 40)) for _ in seq)))
+    return cfg, reads
+
+
 def oracle_c03(ent):
     cfg, reads, res = ent["cfg"], ent["reads"], ent["impl"]
     by_idx = {i: r for i, r in enumerate(reads)}
@@ -148,6 +215,12 @@ def oracle_c04(ent, d=None):
             return "report says %r bp quality-trimmed, the quality-trimming stages removed %d" % (got, q)
     rep = res["report"]
     rc, bp = rep["read_counts"], rep["basepair_counts"]
+    # the totals over both reads are the sums of the per-read figures: a number whenever one of them is a number (0 included)
+    for key in ("quality_trimmed", "poly_a_trimmed"):
+        parts = [bp.get(key + "_read1"), bp.get(key + "_read2")]
+        want = None if all(x is None for x in parts) else sum(x for x in parts if x is not None)
+        if bp.get(key) != want:
+            return "report: %s is %r, the figures per read are %r" % (key, bp.get(key), parts)
     filt = {k: v for k, v in rc["filtered"].items() if v is not None}
     if rc["input"] != len(reads):
         return "input count %d but %d reads" % (rc["input"], len(reads))
@@ -712,6 +785,11 @@ def adjust(pid, rng, cfg):
             cfg.max_aer = rng.choice([0.01, 0.05, 0.2])   # 0 is refused (0 < rate < 1 is demanded)
         if rng.random() < 0.2:
             cfg.max_n = rng.choice([0.0, 0.1, 0.25, 0.5])
+        if cfg.adapters and not cfg.revcomp and rng.random() < 0.12:
+            # filters see the fully modified read -- its header included: --rename can remove, keep or add the CASAVA field
+            cfg.casava = True
+            cfg.rename = rng.choice(["{id}", "{id} 1:Y:0:AC", "{id} {comment}", "{id} 2:N:0:AC", "{id} x {comment}"])
+            cfg.prefix = cfg.suffix = ""
     return cfg
 
 
@@ -913,6 +991,9 @@ def run(ctx, pid):
         if pid in ("C09", "C03") and rng.random() < 0.05:
             cases.append(linked_dimer_case(rng))
             continue
+        if pid in ("C09", "C03") and rng.random() < 0.05:
+            cases.append(linked_retain_case(rng))
+            continue
         if pid == "C11" and rng.random() < 0.08:
             cases.append(maxn_boundary_case(rng))
             continue
@@ -948,11 +1029,11 @@ def run(ctx, pid):
                 if any(read_index(r[0]) is None for r in ent["reads"]):
                     pass   # names outside the generator's r<idx> scheme: compared with the model only
                 elif pid == "C03":
-                    why = oracle_c03(ent) or oracle_c03_actions(ent, d)
+                    why = oracle_c03(ent) or oracle_c03_actions(ent, d) or oracle_c03_retain(ent)
                 elif pid == "C04":
                     why = oracle_c04(ent, d)
                 elif pid == "C09":
-                    why = oracle_c09_linked_required(ent) or oracle_c09(ent) or oracle_c09_reaching(ent, d)
+                    why = oracle_c09_linked_required(ent) or oracle_c09(ent) or oracle_c09_reaching(ent, d) or oracle_c03_retain(ent)
                 elif pid == "C10":
                     why = oracle_c10(ent, d) if rng.random() < (0.85 if ctx.quick else 0.9) else None
                 elif pid == "C11":
@@ -1013,6 +1094,19 @@ def multicore_part(ctx, pid, results, dist):
     if pid == "C20":
         picked.sort(key=lambda e: -sum(1 for f, _ in e["cfg"].adapters if f == "-b"))
     picked = picked[: (6 if ctx.quick else 40)]
+    if pid == "C20":
+        # linked adapters with --revcomp: the per-adapter count of matches on the reverse complement is summed over the workers as well
+        rng = ctx.rng
+        for _ in range(1 if ctx.quick else 4):
+            fr, bk = U.rand_seq(rng, 8, "ACGT"), U.rand_seq(rng, 8, "ACGT")
+            cfg_l = S.Cfg(adapters=((rng.choice(["-a", "-g"]), "lk=%s...%s" % (fr, bk)),), revcomp=True, fasta=rng.random() < 0.4, info_file=False)
+            rl = []
+            for i in range(rng.randint(24, 40)):
+                sq = fr + U.rand_seq(rng, rng.choice([8, 14, 20]), "ACGT") + bk + U.rand_seq(rng, rng.choice([0, 5]), "ACGT")
+                if rng.random() < 0.5:
+                    sq = revcomp(sq)
+                rl.append(("r%d" % i, sq, None if cfg_l.fasta else "".join(chr(33 + rng.randint(15, 40)) for _ in sq)))
+            picked.insert(0, {"cfg": cfg_l, "reads": rl})
     d = os.path.join(buildimpl.scratch_root(), "mc-" + pid)
     os.makedirs(d, exist_ok=True)
     try:
@@ -1359,7 +1453,7 @@ def replay(doc, pid):
         print("implementation exit", ent["impl"]["exit"], ent["impl"]["error"])
         return 1
     with S.Scratch() as d:
-        why = {"C03": lambda: oracle_c03(ent) or oracle_c03_actions(ent, d), "C04": lambda: oracle_c04(ent, d), "C10": lambda: oracle_c10(ent, d),
+        why = {"C03": lambda: oracle_c03(ent) or oracle_c03_actions(ent, d) or oracle_c03_retain(ent), "C04": lambda: oracle_c04(ent, d), "C10": lambda: oracle_c10(ent, d),
                "C09": lambda: oracle_c09(ent) or oracle_c09_reaching(ent, d), "C11": lambda: oracle_c11(ent, d), "C15": lambda: oracle_c15(ent, d), "C16": lambda: oracle_c16(ent),
                "C17": lambda: oracle_c17(ent), "C20": lambda: oracle_c20(ent)}[pid]()
     print("argv", ent["impl"]["argv"][5:-1])
